@@ -48,3 +48,6 @@ Proof. unfold zlen; rewrite app_length; lia. Qed.
 
 Lemma zlen_cons {A} (x : A) l : zlen (x :: l) = 1 + zlen l.
 Proof. unfold zlen; simpl length; lia. Qed.
+
+Definition list_eqb_Z (a b : list Z) : bool :=
+  (Nat.eqb (length a) (length b)) && forallb (fun p => fst p =? snd p) (combine a b).
